@@ -516,9 +516,148 @@ class _RangeStep(ast.NodeTransformer):
     visit_ListComp = visit_GeneratorExp = visit_SetComp = visit_DictComp = _comp
 
 
+class _IndexToEnumerate(ast.NodeTransformer):
+    """`for i in range(len(X)): .. X[i] ..`             ->  `for i, _e in enumerate(X): .. _e ..`
+       `for i in range(len(X) - 1, -1, -1): .. X[i] ..` ->  `for i, _e in reversed(list(enumerate(X))): .. _e ..`
+    when X is a plain name / attribute chain, `i` is not rebound in the body, `X[i]` is read at least once, and every statement of the
+    body that can change X (a store to X or through it, a call on it with a mutating method) comes after the last read of `X[i]` and
+    is followed by leaving the loop (so no later iteration sees the change -- the enumerate form works on a snapshot)."""
+
+    def __init__(self) -> None:
+        self.k = 0
+
+    @staticmethod
+    def _chain(e: ast.AST) -> bool:
+        while isinstance(e, ast.Attribute):
+            e = e.value
+        return isinstance(e, ast.Name)
+
+    @staticmethod
+    def _is_len_of(e: ast.AST):
+        if isinstance(e, ast.Call) and isinstance(e.func, ast.Name) and e.func.id == "len" and len(e.args) == 1 and not e.keywords:
+            return e.args[0]
+        return None
+
+    def _match(self, it: ast.AST):
+        """-> (X, descending) or None"""
+        if not (isinstance(it, ast.Call) and isinstance(it.func, ast.Name) and it.func.id == "range" and not it.keywords):
+            return None
+        a = it.args
+
+        def const(e, v):
+            if isinstance(e, ast.UnaryOp) and isinstance(e.op, ast.USub) and isinstance(e.operand, ast.Constant):
+                return -e.operand.value == v
+            return isinstance(e, ast.Constant) and e.value == v and not isinstance(e.value, bool)
+        if len(a) == 1 or (len(a) == 2 and const(a[0], 0)):
+            x = self._is_len_of(a[-1])
+            return (x, False) if x is not None and self._chain(x) else None
+        if len(a) == 3 and const(a[1], -1) and const(a[2], -1) and isinstance(a[0], ast.BinOp) and isinstance(a[0].op, ast.Sub) and const(a[0].right, 1):
+            x = self._is_len_of(a[0].left)
+            return (x, True) if x is not None and self._chain(x) else None
+        return None
+
+    def visit_For(self, node: ast.For):
+        self.generic_visit(node)
+        if not isinstance(node.target, ast.Name) or node.orelse:
+            return node
+        mt = self._match(node.iter)
+        if mt is None:
+            return node
+        x, desc = mt
+        i = node.target.id
+        xd = ast.dump(x)
+        root = x
+        while isinstance(root, ast.Attribute):
+            root = root.value
+        # i rebound in the body?
+        for n in ast.walk(ast.Module(body=node.body, type_ignores=[])):
+            if isinstance(n, ast.Name) and n.id == i and isinstance(n.ctx, (ast.Store, ast.Del)):
+                return node
+            if isinstance(n, ast.Name) and n.id == root.id and isinstance(n.ctx, (ast.Store, ast.Del)):  # type: ignore[attr-defined]
+                return node
+        mutators = {"append", "insert", "pop", "extend", "remove", "clear", "sort", "reverse"}
+
+        def is_read(n: ast.AST) -> bool:
+            return isinstance(n, ast.Subscript) and isinstance(n.ctx, ast.Load) and ast.dump(n.value) == xd and isinstance(n.slice, ast.Name) and n.slice.id == i
+
+        def modifies(n: ast.AST) -> bool:
+            if isinstance(n, (ast.Attribute, ast.Subscript)) and isinstance(n.ctx, (ast.Store, ast.Del)):
+                t = n
+                while isinstance(t, (ast.Attribute, ast.Subscript)):
+                    if ast.dump(_as_load(t)) == xd:
+                        return True
+                    t = t.value
+            if isinstance(n, ast.Call) and isinstance(n.func, ast.Attribute) and n.func.attr in mutators and ast.dump(n.func.value) == xd:
+                return True
+            return False
+
+        # walk the body in source order: reads of X[i] must all precede the first modification
+        order: list = []
+
+        def walk(n: ast.AST) -> None:
+            if is_read(n):
+                order.append("r")
+            if modifies(n):
+                order.append("m")
+            for ch in ast.iter_child_nodes(n):
+                walk(ch)
+        for st in node.body:
+            walk(st)
+        if "r" not in order:
+            return node
+        if "m" in order and "r" in order[order.index("m"):]:
+            return node
+
+        # every modifying statement must be followed by leaving the loop on its own path
+        def leaves_after(stmts: list) -> bool:
+            """every statement list that contains a modification ends (after it) in break / return / raise"""
+            for k, st in enumerate(stmts):
+                has_m = any(modifies(n) for n in ast.walk(st))
+                if not has_m:
+                    continue
+                if isinstance(st, (ast.If, ast.With, ast.Try, ast.For, ast.While)):
+                    subs = [getattr(st, f) for f in ("body", "orelse", "finalbody") if getattr(st, f, None)]
+                    if isinstance(st, ast.Try):
+                        subs += [h.body for h in st.handlers]
+                    if all(leaves_after(sub) or not any(modifies(n) for s2 in sub for n in ast.walk(s2)) for sub in subs):
+                        continue
+                rest = stmts[k + 1:]
+                if not (rest and isinstance(rest[-1], (ast.Break, ast.Return, ast.Raise))):
+                    return False
+            return True
+        if "m" in order and not leaves_after(node.body):
+            return node
+        self.k += 1
+        e_name = f"_ie{self.k}"
+
+        class R(ast.NodeTransformer):
+            def visit_Subscript(self, n: ast.Subscript):
+                if is_read(n):
+                    return ast.copy_location(ast.Name(id=e_name, ctx=ast.Load()), n)
+                return self.generic_visit(n)
+        new = copy.copy(node)
+        new.body = [R().visit(copy.deepcopy(st)) for st in node.body]
+        new.target = ast.Tuple(elts=[ast.Name(id=i, ctx=ast.Store()), ast.Name(id=e_name, ctx=ast.Store())], ctx=ast.Store())
+        it: ast.AST = ast.Call(func=ast.Name(id="enumerate", ctx=ast.Load()), args=[copy.deepcopy(x)], keywords=[])
+        if desc:
+            it = ast.Call(func=ast.Name(id="reversed", ctx=ast.Load()), args=[
+                ast.Call(func=ast.Name(id="list", ctx=ast.Load()), args=[it], keywords=[])], keywords=[])
+        new.iter = it  # type: ignore[assignment]
+        return ast.copy_location(new, node)
+
+
+def _as_load(t: ast.AST) -> ast.AST:
+    t = copy.deepcopy(t)
+    for n in ast.walk(t):
+        if hasattr(n, "ctx"):
+            n.ctx = ast.Load()  # type: ignore[attr-defined]
+    return t
+
+
 def normalise_loops(fn: ast.FunctionDef) -> ast.FunctionDef:
     new = copy.copy(fn)
-    new.body = _rewrite_block(list(fn.body))
+    new.body = list(_IndexToEnumerate().visit(ast.Module(body=copy.deepcopy(list(fn.body)), type_ignores=[])).body)
+    new.body = _rewrite_block(list(new.body))
     new = _Fuse().visit(copy.deepcopy(new))
     new = _KeysToItems().visit(new)
     new = _RangeStep().visit(new)
